@@ -2,7 +2,7 @@
 import json, os, sys, time
 
 VERIF = os.path.dirname(os.path.dirname(os.path.abspath(__file__)))
-EVID = os.path.join(VERIF, 'evidence')
+EVID = os.environ.get('VERIF_EVIDENCE') or os.path.join(VERIF, 'evidence')  # the override serves tool/seedmatrix.py only
 KNOWN = os.path.join(VERIF, 'known_findings.json')
 
 
